@@ -67,8 +67,10 @@ def strategy(tier):
     # an element is one raw state per device, or "reconnect": the facade is discarded and a new one is built on the same spa state
     # (what every reset / recovery does) while the process-wide configuration stays as it is
     assign = st.lists(st.integers(0, 3), min_size=8, max_size=8)
-    fac = st.builds(lambda si, seq: {"k": "facade", "snap": si, "seq": seq},
-                    st.integers(0, 60), st.lists(st.one_of(assign, assign, assign, assign, st.just("reconnect")), min_size=1, max_size=10))
+    fac = st.builds(lambda si, seq, init: dict({"k": "facade", "snap": si, "seq": seq}, **({"init": init} if init else {})),
+                    st.integers(0, 60), st.lists(st.one_of(assign, assign, assign, assign, st.just("reconnect"), assign.map(lambda a: ["reconnect", a]),
+                                       st.just(["reconnect", [0] * 8])), min_size=1, max_size=10),
+                    st.one_of(st.none(), assign))
     return st.one_of(hist, hist, fac)
 
 
@@ -185,21 +187,69 @@ def _run_facade(res, case):
     W = vworld.World()
     stats = {"nt": False}
 
+    def answering(spa_):
+        """the spa answers pings and the facade's periodic queries at once (instance-level stand-ins for the network)"""
+        async def wc():
+            return 1
+
+        async def rem():
+            return []
+        spa_._last_ping = W.clock.t
+        spa_.async_get_watercare = wc
+        spa_.async_get_reminders = rem
+
+    def cfg_on_of(fac_, block_):
+        out_ = []
+        for d in fac_.pumps + fac_.blowers:
+            it = pair.items[d._state_sensor.accessor.tag]
+            v = it.decode(block_)
+            out_.append((v is True) if it.kind == "Bool" else (v != "OFF"))
+        return out_
+
+    async def first_round(fac_, spa_, why):
+        """the facade's periodic update selects the table as well: after its first round the configuration matches the devices"""
+        for _ in range(6):
+            await asyncio.sleep(0)
+        on = cfg_on_of(fac_, spa_.struct.status_block)
+        names, act, idle = _tables()
+        cur = {k: getattr(gc.GeckoConfig, k, None) for k in names}
+        if cur != (act if any(on) else idle):
+            res.fail(f"C17|facade-update-selects-{'idle' if cur == idle else 'active' if cur == act else 'mixture'}",
+                     f"{plat}/{cv}/{lv} {why}: pumps/blowers on={on} after the facade's first update round, but the "
+                     f"{'IDLE' if cur == idle else 'ACTIVE' if cur == act else 'mixed'} table is installed")
+        if any(on):
+            stats["nt"] = True
+
     async def main(W):
         tm = facades.FakeTaskMan()
-        spa = facades.make_async_spa(plat, cv, lv, snap.bytes, tm)
-        spa._last_ping = None
+        block0 = snap.bytes
+        init = case.get("init")
+        if init:
+            # devices that are already running when the facade is built
+            probe_tm = facades.FakeTaskMan()
+            probe = GeckoAsyncFacade(facades.make_async_spa(plat, cv, lv, block0, probe_tm), probe_tm)
+            for d, raw in zip(probe.pumps + probe.blowers + probe.lights, init):
+                it = pair.items[d._state_sensor.accessor.tag]
+                pos, w, word = it.encode_raw(block0, raw % it.capacity)
+                block0 = packs.apply_write(block0, pos, w, word)
+            await probe.disconnect()
+            for t in probe_tm._tasks:
+                t.cancel()
+            await asyncio.gather(*probe_tm._tasks, return_exceptions=True)
+        spa = facades.make_async_spa(plat, cv, lv, block0, tm)
 
         async def bg():
             while True:
                 await gc.config_sleep(500.0)
         b = asyncio.ensure_future(bg())
         await asyncio.sleep(0)
+        answering(spa)
         fac = GeckoAsyncFacade(spa, tm)
         try:
             devs = fac.pumps + fac.blowers + fac.lights
             if not devs:
                 return
+            await first_round(fac, spa, "new facade")
             def cfg_states(block):
                 out_ = []
                 for d in fac.pumps + fac.blowers:
@@ -213,18 +263,26 @@ def _run_facade(res, case):
             # applies from the first state change on
             prev_cfg = cfg_states(spa.struct.status_block)
             for assign in case["seq"]:
-                if assign == "reconnect":
+                if assign == "reconnect" or (isinstance(assign, list) and assign and assign[0] == "reconnect"):
                     block = spa.struct.status_block
+                    if isinstance(assign, list) and len(assign) > 1:
+                        # the devices change state while nobody is connected (the gap between two connections)
+                        for d, raw in zip(devs, assign[1]):
+                            it = pair.items[d._state_sensor.accessor.tag]
+                            pos, w, word = it.encode_raw(block, raw % it.capacity)
+                            block = packs.apply_write(block, pos, w, word)
                     await fac.disconnect()
                     for t in tm._tasks:
                         t.cancel()
                     await asyncio.gather(*tm._tasks, return_exceptions=True)
                     tm = facades.FakeTaskMan()
                     spa = facades.make_async_spa(plat, cv, lv, block, tm)
-                    spa._last_ping = None
+                    answering(spa)
                     fac = GeckoAsyncFacade(spa, tm)
                     devs = fac.pumps + fac.blowers + fac.lights
                     stats["reconnects"] = stats.get("reconnects", 0) + 1
+                    await first_round(fac, spa, "rebuilt facade")
+                    prev_cfg = cfg_states(spa.struct.status_block)
                     continue
                 # assign a raw state value to each device's state item
                 block = spa.struct.status_block
